@@ -161,6 +161,11 @@ def run_case(kind, p):
         pts = np.round(pts)
         ipts = pts.astype(np.int64)
         m = M.affinematch(centers=ipts, indices=idx, refineds=ipts.copy(), peak_elevations=w, peak_values=np.ones(len(w)))
+    elif p.get("round_centers"):
+        # what a correlation hands over: integer pixel centres next to the refined (sub-pixel) positions -- the positions that
+        # are fitted are the refined ones
+        m = M.affinematch(centers=np.round(pts).astype(np.int32), indices=idx, refineds=pts, peak_elevations=w,
+                          peak_values=np.ones(len(w)))
     else:
         m = M.affinematch(centers=pts, indices=idx, refineds=pts, peak_elevations=w, peak_values=np.ones(len(w)))
     if not m.selector.all():
@@ -284,6 +289,6 @@ def search(ctx, boost=1, focus=()):
             if np.linalg.cond(L) <= 100:
                 break
         p.update({"L": L, "t": rng.uniform(-50, 50, 2), "wscale": float(10 ** rng.uniform(-3, 3)) if k % 4 else float(rng.choice([1e-9, 1e-12, 2.0 ** -60, 1e10, 2.0 ** 50])),
-                  "seed": int(rng.integers(1 << 30))})
+                  "seed": int(rng.integers(1 << 30)), "round_centers": k % 3 == 2})
         ctx.oracle_case("fit", p, run_case("fit", p), nontrivial=(k % 3 != 0 and k % 5 != 0))
     ctx.count("oracle_fit", n)
